@@ -186,6 +186,54 @@ var Probes = []string{
 	`($v | del(.[0]?, .a?)), $v, ($v | to_entries?), ($v | .. |= .), $v, [$v | .[]?] , ($v | [.[]?] | .[:1] + ["c"]), $v`,
 }
 
+// RefModify is `|=` written as its defining reduction in jq (first output of f, or delete the path when f is
+// empty; paths taken from the original value, deletions applied at the end) WITHOUT using `|=` itself.
+const RefModify = `def rm(ps; f): reduce path(ps) as $p ({v: ., d: []}; . as $s | [$s.v | getpath($p) | first(f)] as $r | ` +
+	`if ($r | length) > 0 then {v: ($s.v | setpath($p; $r[0])), d: $s.d} else {v: $s.v, d: ($s.d + [$p])} end) ` +
+	`| .v as $v | .d as $d | $v | delpaths($d); `
+
+// NestedDeletes are (program, reference): a deleting update INSIDE the body of another deleting update (depth 2
+// and 3), deleting updates repeated by reduce/foreach, map_values / del / delpaths / walk forms.  Every
+// activation of `|=` keeps its own list of paths to delete; if activations shared storage (a code constant with
+// spare capacity appended to in place) the inner one would clobber the outer one's list.
+var NestedDeletes = [][2]string{
+	{`.[] |= ((.[] |= select(. < 3)) | select(length > 0))`, `rm(.[]; rm(.[]; select(. < 3)) | select(length > 0))`},
+	{`.[] |= ((.[]? |= select(. < 3)) | select(length > 0))`, `rm(.[]; rm(.[]?; select(. < 3)) | select(length > 0))`},
+	{`map_values(map_values(select(. < 3)) | select(length > 0))`, `rm(.[]; rm(.[]; select(. < 3)) | select(length > 0))`},
+	{`map_values(map_values(empty))`, `rm(.[]; rm(.[]; empty))`},
+	{`map_values(map_values(empty) | select(length > 0))`, `rm(.[]; rm(.[]; empty) | select(length > 0))`},
+	{`.[] |= (del(.[]? | select(. >= 3)) | select(length > 0))`, `rm(.[]; rm(.[]?; select(. < 3)) | select(length > 0))`},
+	{`.[] |= (delpaths([paths(numbers | . >= 3)]) | select(length > 0))`, `rm(.[]; delpaths([paths(numbers | . >= 3)]) | select(length > 0))`},
+	{`.[] |= ((.[] |= ((.[]? |= select(. < 3)) | select(length > 0))) | select(length > 0))`,
+		`rm(.[]; rm(.[]; rm(.[]?; select(. < 3)) | select(length > 0)) | select(length > 0))`},
+	{`.[] |= ((.[] |= select(. < 3)) | (.[] |= select(. > 0)) | select(length > 0))`,
+		`rm(.[]; rm(.[]; select(. < 3)) | rm(.[]; select(. > 0)) | select(length > 0))`},
+	{`(.[] | select(length > 1)) |= ((.[] |= select(. != 7)) | select(length > 1))`,
+		`rm(.[] | select(length > 1); rm(.[]; select(. != 7)) | select(length > 1))`},
+	{`reduce range(3) as $i (.; .[] |= ((.[] |= select(. != $i)) | select(length > 0)))`,
+		`reduce range(3) as $i (.; rm(.[]; rm(.[]; select(. != $i)) | select(length > 0)))`},
+	{`[foreach range(4) as $i (.; map_values(map_values(select(. != $i + 4)) | select(length > 0)); .)]`,
+		`[foreach range(4) as $i (.; rm(.[]; rm(.[]; select(. != $i + 4)) | select(length > 0)); .)]`},
+	{`walk(if type == "number" and . >= 3 then empty else . end)`, `def w: if type == "object" then rm(.[]; w) elif type == "array" then map(w) else . end | if type == "number" and . >= 3 then empty else . end; w`},
+	{`walk(if type == "object" then map_values(select(. != 5)) | select(length > 0) else . end)`,
+		`def w: if type == "object" then rm(.[]; w) elif type == "array" then map(w) else . end | if type == "object" then rm(.[]; select(. != 5)) | select(length > 0) else . end; w`},
+	{`.[] |= ((.[] |= select(. < 3)) | select(length > 0)), (.[] |= ((.[] |= select(. < 3)) | select(length > 0)))`,
+		`rm(.[]; rm(.[]; select(. < 3)) | select(length > 0)), rm(.[]; rm(.[]; select(. < 3)) | select(length > 0))`},
+}
+
+// NestedInputs: 1..10 and more than 8 deleted paths at the outer / inner / third level, arrays and objects.
+var NestedInputs = []string{
+	`[[5],[1,7,2]]`,
+	`[[5],[1,7,2],[9,8],[0,1,2],[3,4,5,6],[7]]`,
+	`[[5],[6],[7],[8],[9],[3],[4],[5],[6],[7],[8],[1,9]]`,
+	`[[1,5,6,7,8,9,3,4,5,6,7,2],[5],[0,9]]`,
+	`[[[5],[1,7,2]],[[9]],[[0,5],[6],[2,8,1]]]`,
+	`[[[5],[6],[7],[8],[9],[3],[4],[5],[6],[1]],[[9,8,7,6,5,4,3,3,3,2]],[[4]]]`,
+	`{"a":{"x":5},"b":{"x":1,"y":7,"z":2},"c":{"p":9,"q":8},"d":{"k":0}}`,
+	`{"a":{"x":{"u":5}},"b":{"x":{"u":1,"v":7},"y":{"u":9}},"c":{"p":{"u":2,"v":1,"w":5}}}`,
+	`[{"a":5,"b":1},[1,7,2],{"c":9},[5,5]]`,
+}
+
 var genPaths = []string{
 	`.a`, `.b`, `.c`, `.[0]`, `.[1]`, `.[-1]`, `.[]`, `.[]?`, `.[1:]`, `.[:2]`, `.[1:3]`, `.a.b`, `.a[0]`, `.b.c`, `.b.c[0]`, `.c[0].b`,
 	`..`, `.a?`, `(.a, .b)`, `(.[0], .[1])`, `.a[]?`, `.[0][]?`, `getpath(["a", "b"])`, `first(.[]?)`, `.[]?.a?`, `.k7.x`, `.k8[0]`, `.k4[0].a`,
@@ -215,7 +263,7 @@ func GenProgram(r *Rng, depth int) string {
 		return pick(genLeaves)
 	}
 	sub := func() string { return GenProgram(r, depth-1) }
-	switch r.Intn(20) {
+	switch r.Intn(21) {
 	case 0, 1:
 		return fmt.Sprintf("(%s %s %s)", pick(genPaths), pick([]string{"|=", "=", "+=", "|=", "//=", "*="}), sub())
 	case 2:
@@ -250,6 +298,9 @@ func GenProgram(r *Rng, depth int) string {
 		return fmt.Sprintf("(if %s then %s else %s end)", sub(), sub(), sub())
 	case 17:
 		return fmt.Sprintf("(%s | %s %s %s)", sub(), pick(genPaths), pick([]string{"|=", "=", "+="}), sub())
+	case 19:
+		return fmt.Sprintf("(%s |= ((%s |= %s)? | %s))", pick([]string{".[]?", ".a?", "(.[]? | arrays)", ".b?"}), pick([]string{".[]?", ".[0]?", ".c?"}),
+			pick([]string{"empty", "select(. != 1)", "(numbers | select(. < 3))", sub()}), pick([]string{"select(length > 0)", ".", "empty", "select(. != [])"}))
 	case 18:
 		return fmt.Sprintf("(%s | .[%s:%s]?)", sub(), pick([]string{"", "0", "1", "-1"}), pick([]string{"", "1", "2", "-1"}))
 	default:
@@ -270,6 +321,11 @@ func GenJobs(r *Rng, n int, probeInputs int) []Job {
 	for pi, p := range NumberProbes {
 		for k := 0; k < 3; k++ {
 			js = append(js, Job{Program: withX(p), Input: Inputs[len(Inputs)-3+k], Origin: "probe", Vars: []string{BigVars[(pi+k)%len(BigVars)]}})
+		}
+	}
+	for _, nd := range NestedDeletes {
+		for _, in := range NestedInputs {
+			js = append(js, Job{Program: nd[0], Ref: RefModify + nd[1], Input: in, Origin: "probe", Vars: []string{vars[0]}})
 		}
 	}
 	for _, st := range Steered {
